@@ -56,7 +56,7 @@ def mc_cfg(tier, emit=True):
 def features(case):
     """coarse class of a generated case, used in violation signatures"""
     types = [e['t'] for e in case['g']]
-    user_amp = any(e['t'] == 'Edfa' for e in case['g'])
+    user_amp = any(e['t'] in ('Edfa', 'Multiband_amplifier') for e in case['g'])
     raman_after_roadm = any(e['t'] == 'Roadm' and any(case['g'][j - 1]['t'] == 'RamanFiber' for j in e['s'])
                             for e in case['g'])
     per_freq = any(e.get('ct') for e in case['g'])
@@ -65,7 +65,7 @@ def features(case):
         return '|'.join(f'opt={o}' for o in opts) + ('' if case['s'].get('insert', True) else '|no_insert_edfas')
     return (f"raman={int('RamanFiber' in types)}|raman_after_roadm={int(raman_after_roadm)}|"
             f"fused={int('Fused' in types)}|useramp={int(user_amp)}" + ('|perfreq=1' if per_freq else '')
-            + ('' if case['s'].get('insert', True) else '|no_insert_edfas'))
+            + ('' if case['s'].get('insert', True) else '|no_insert_edfas') + ('|multiband' if case['s'].get('bands', 1) == 2 else ''))
 
 
 def case_name(case):
@@ -81,7 +81,7 @@ def case_name(case):
                 continue
             parts = []
             while x['t'] not in ('Roadm', 'Transceiver'):
-                tag = {'Fiber': 'F', 'RamanFiber': 'R', 'Fused': 'X', 'Edfa': 'A'}[x['t']]
+                tag = {'Fiber': 'F', 'RamanFiber': 'R', 'Fused': 'X', 'Edfa': 'A', 'Multiband_amplifier': 'M'}[x['t']]
                 if x['t'] in ('Fiber', 'RamanFiber'):
                     tag += str(x['l'] / 1000).rstrip('0').rstrip('.')
                     if x.get('ai', 0) not in (0, NONE):
@@ -94,9 +94,11 @@ def case_name(case):
                         tag += '+perfreq'
                 if x['t'] == 'Fused':
                     pass
+                if x['t'] == 'Multiband_amplifier':
+                    tag += 'none' if not x['u'] else 'zero' if x['u'][0]['gain'] == NONE else 'full'
                 if x['t'] == 'Edfa':
                     u = x['u'][0]
-                    tag += 'full' if u['gain'] != NONE else 'partial' if u['variety'] else 'voa' if u['voa'] != NONE else 'none'
+                    tag += 'zero' if u['gain'] == NONE and u['dp'] == 0 else 'full' if u['gain'] != NONE else 'partial' if u['variety'] else 'voa' if u['voa'] != NONE else 'none'
                 parts.append(tag)
                 x = g[x['s'][0] - 1]
             chains.append(f"{e['n'][-1]}{x['n'][-1]}:" + '-'.join(parts))
@@ -106,7 +108,8 @@ def case_name(case):
                               f"max={s['maxLen'] // 1000} {'power' if s['powerMode'] else 'gain'}" \
                               f"{' SI=ampband' if s.get('siBand') and s['siBand'] == s.get('ampBand') else ''}" \
                               f"{' maxlen-in-m' if s.get('lenUnits') == 'm' else ''}" \
-                              f"{'' if s.get('insert', True) else ' no-insert'}"
+                              f"{'' if s.get('insert', True) else ' no-insert'}" \
+                              f"{' C+L' if s.get('bands', 1) == 2 else ''}{' P=%+.1f' % (s['power'] / 10) if s.get('power') else ''}"
 
 
 def _b2_one(c):
